@@ -483,7 +483,9 @@ def l3_models(chk, ctx, rng, n):
 def run(chk, ctx):
     tier = ctx['tier']; rng = common.Rng(ctx['seed'], 'C03')
     chk.rule = ('K: dt rule on random 1-5 population parameter sets; one full time step / 1-3 step const and affine-in-time runs in 1-5 populations, '
-                'random grids, flags; L3: superposition and re-scaling residuals on the public integrators (constant and time-varying, delj trick off/on, '
+                'random grids, flags; 2-3 step runs in which EVERY size, selection, dominance, migration rate, theta0 (beta) is an affine function of time, '
+                'constant runs and runs with Integration.use_delj_trick on, each against the model AND against the translated time loop of the driver '
+                'run by the statement semantics (integ prog); L3: superposition and re-scaling residuals on the public integrators (constant and time-varying, delj trick off/on, '
                 'regimes moderate / wide (rates log-uniform 1e-9..30, c a power of two) / strong (|gamma*nu| 30..600, nu 0.02..50); members of the '
                 'superposition generic, zero, cancelling, mixed tiny+huge, all tiny, all huge), equilibrium constructors (gamma*nu per stratum '
                 'weak/mid/near/strong, raw gamma of the two parameterisations on opposite sides of a pivot in 20..2000, entry-wise comparison, '
@@ -494,9 +496,11 @@ def run(chk, ctx):
     q = tier == 'quick'
     k_dt(chk, ctx, rng, 60 if q else 400)
     k_sweep(chk, ctx, rng, 15 if q else 45, tier)
+    k_program(chk, ctx, common.Rng(ctx['seed'], 'C03-program'), 1 if q else 5, tier)     # own stream: the cases below stay what they were
     l3_superposition(chk, ctx, rng, 60 if q else 360, tier)
     l3_rescale(chk, ctx, rng, 60 if q else 360, tier)
     l3_dt_wiring(chk, ctx, rng, 40 if q else 200)
+    l3_schedule(chk, ctx, common.Rng(ctx['seed'], 'C03-schedule'), 30 if q else 150)
     l3_equilibrium(chk, ctx, rng, 48 if q else 480)
     l3_equilibrium_X(chk, ctx, rng, 6 if q else 30)
     l3_models(chk, ctx, rng, 16 if q else 96)
